@@ -1,0 +1,17 @@
+//go:build verif
+
+package sort
+
+import "github.com/moorara/algo/generic"
+
+// VerifQuickNoShuffle runs quick(a, 0, len(a)-1, cmp), the deterministic core of Quick, without the
+// clock-seeded shuffle, so that the verification harness in /verif can compare the resulting
+// permutation with its model exactly.
+func VerifQuickNoShuffle[T any](a []T, cmp generic.CompareFunc[T]) {
+	quick[T](a, 0, len(a)-1, cmp)
+}
+
+// VerifPartition exposes partition (used by Quick and Select).
+func VerifPartition[T any](a []T, lo, hi int, cmp generic.CompareFunc[T]) int {
+	return partition[T](a, lo, hi, cmp)
+}
